@@ -34,7 +34,7 @@ RULE = (
 )
 BOUNDS = {
     "quick": "21 solver cells (incl. 5 tight-budget cells mixing converging and non-converging problems) x 84 histories (4+16+64); battery of ~100 public calls plus the product (15 decompositions/solvers) x (structure classes: block-diagonal with 1..n-2 decoupled leading columns, diagonal, tridiagonal, triangular, Hessenberg, zero first column, reduced first column, zero, identity) x n in 3..5, each with repeat, in-place-aliasing, argument-hash and RNG-independence clauses; 2 import styles",
-    "thorough": "pool of 5-6 problems, depth 4 (780-1554 histories per cell)",
+    "thorough": "pool of 5-7 problems (sys pool incl. a singular system and an equal-norm twin), depth 4; battery incl. attribute snapshots of argument objects and in-place updates of sparse containers",
 }
 WALL_BUDGET = {"quick": 600, "thorough": 3000}
 ASSUMPTIONS = [
